@@ -26,7 +26,8 @@ LEVEL_TEXT = ("Coq theorems (abstract *-field + DFT character; every N, NFFT >= 
               "Class level over the pipeline table GENERATED from the source on this run: every class except pmusic/pev stores a scalar multiple "
               "of the estimator's array, so roll / mirror commute with the store and scale() calls; pmusic / pev store centerdc_2_twosided of eigen()'s centred vector times the scale() factor "
               "(commutes with the roll, turns the centred mirror into the two-sided mirror); the AR/MA/ARMA, minvar and multitaper classes store for "
-              "real data 2 x the first onesided_len(NFFT) bins of the complex store (NFFT even and odd, any reachable state).  Real data: CORRELATION, LEVINSON, "
+              "real data 2 x the first onesided_len(NFFT) bins of the complex store (NFFT even and odd, any reachable state); pcorrelogram stores for real data twosided_2_onesided of the "
+              "complex store (bins 0 and NFFT/2 kept, the others doubled).  Real data: CORRELATION, LEVINSON, "
               "aryule, arburg commute with any *-homomorphism R -> F (real path = complex path) and return real parameters.  The DFT specification is tied to "
               "numpy.fft by a binary64 correspondence, CORRELATION / LEVINSON by exact runs at modulated inputs; every class is also covered by a search "
               "comparing rotated / mirrored / folded / time-reversed estimates.")
@@ -37,12 +38,15 @@ TRUSTED = ["Coq 8.16.1 kernel + vm_compute", "numpy.fft.fft is modelled by the D
            "(validated against real objects by C08)", "dpss tapers are an oracle (real, symmetric/antisymmetric: hypotheses of the multitaper mirror / reversal theorems)",
            "numpy.linalg.svd is an oracle: the MUSIC / EV theorems quantify over every (S, Vh) meeting EigenTheory.svd_spec (C17's correspondence checks numpy's output against the model "
            "run on it); Model/Eigen.v is tied to eigenfre.py by C17's correspondence; the AIC/MDL index enters as one natural number on both sides (justified by the proved equality of the singular values)",
-           "Python harness"]
+           "the data matrix eigen() hands to svd is observed through spectrum.eigenfre.svd (C17's tap); at modulated / conjugated low-bit records it is compared exactly with the "
+           "right-hand sides of eigen_fb_modulation / eigen_fb_conj, and numpy's factorisation of it with the SVD specification", "Python harness"]
 UNPROVED = ["that arcovar_marple / scipy lstsq inside arma_estimate are equivariant under modulation / conjugation of their input: oracle hypothesis of the "
             "arma_estimate / parma theorems (proved for the executable solver of Model/Ls.v) -- the implementation side is covered by the search",
             "pmusic / pev: that numpy's floating-point svd meets the SVD specification, and the degenerate case S_(NSIG-1) = S_NSIG (the noise subspace is then a choice of the SVD routine; "
             "the theorems for an arbitrary svd result assume the gap) -- the implementation side is covered by the class search and the search on eigenfre.eigen",
-            "pdaniell (decimating smoother: its output grid has no rotation by m bins; not searched), real-data correlogram (twosided_2_onesided: not a clause of the statement), arma2psd norm=True: outside the theorems",
+            "pdaniell (decimating smoother: its output grid has no rotation by m bins; theorems daniell_*_presmoothing state that the smoother sees the rolled / mirrored periodogram, "
+            "Example daniell_not_a_rotation that the output is not a rotation; not searched), arma2psd norm=True: outside the theorems; the real-data correlogram is NOT 'twice the first half' "
+            "(theorem correlogram_fold over the generated table: twosided_2_onesided keeps bins 0 and NFFT/2) and is not a class of the one-sided clause",
             "scipy.linalg.lstsq in arcovar / modcovar is represented by the executable solver ls_solve (agrees with every normal-equation solver on full-rank data, C09)",
             "conjugation / real-path theorems assume the divisors of the executed stages are nonzero (N, N-k, mean power, error powers, Burg denominators)"]
 ASSUMPTIONS = ["exact arithmetic in the theorems", "detrend off for the periodogram shift clause (subtracting the mean is not modulation covariant; the class default is None)"]
